@@ -411,6 +411,8 @@ def run(tier, seed):
     part_a(chk, thorough)
     part_b1(chk, thorough)
     part_b2(chk, thorough)
+    import collections
+    print("C10 oracle failures by trigger: %s" % dict(collections.Counter(f[0] for f in chk.failures)))
     chk.assumptions = [
         "Django 5.1 template engine (Parser, nodes, loaders, Context) is the same code on both sides; only Template.compile_nodelist / "
         "Template.render and tag_re differ between a process with and without django_components",
